@@ -101,8 +101,12 @@ impl Forest {
         }
         fn print_lines(lines: &[Print], skip_before_end: bool) -> String {
             let mut ret = String::new();
+            // `{:width$}` panics for widths above u16::MAX; longer lines are simply not padded
+            let max_width = usize::from(u16::MAX);
             let expr_width = lines.iter().map(|line| line.expr_str.len()).max().unwrap();
+            let expr_width = expr_width.min(max_width);
             let arrow_width = lines.iter().map(|line| line.arrow_str.len()).max().unwrap();
+            let arrow_width = arrow_width.min(max_width);
             let last_line = lines.len();
             for (n, line) in lines.iter().enumerate() {
                 ret += "\n";
